@@ -1297,7 +1297,8 @@ def gen_set16(rng):
         path = fresh or gen_docs.render_path(segs, sep)
         aliasof = gen_docs.render_path(src_segs, sep)
         if oper == "aliasof-new" or rng.random() < 0.3:
-            newanchor = rng.choice(["newanc", "N1"])
+            newanchor = rng.choice(["newanc", "N1", "&newanc", "new anc",
+                                    "*N1 ", "& N1"])
     elif oper in ("tag", "tag-only"):
         segs, _n = rng.choice(scalars)
         path = fresh or gen_docs.render_path(segs, sep)
@@ -1395,6 +1396,14 @@ def gen_set16(rng):
             "newanchor": newanchor, "tag": tag, "value_stdin": value_stdin}
 
 
+def clean_anchor(name):
+    """--anchor as the tool understands it: the name without sigils and
+    blanks (people paste "&name" or "*name ")."""
+    if name is None:
+        return None
+    return name.replace(" ", "").replace("&", "").replace("*", "")
+
+
 def expect_set(scn):
     """The same action applied through the library on a fresh load."""
     from yamlpath.common import Nodes
@@ -1434,7 +1443,8 @@ def expect_set(scn):
             proc.delete_gathered_nodes(coords)
         elif oper in ("aliasof", "aliasof-new"):
             proc.alias_gathered_nodes(coords, scn["aliasof"],
-                                      anchor_name=scn.get("newanchor"))
+                                      anchor_name=clean_anchor(
+                                          scn.get("newanchor")))
         elif oper == "tag-only":
             proc.tag_gathered_nodes(coords, tag)
         elif oper == "tag":
